@@ -161,6 +161,11 @@ pub fn type_num(t: TYPE) -> u16 {
     }
 }
 
+/// true when the library maps this TYPE code to `Unknown`: records under it are opaque
+pub fn library_has_no_variant_for(code: u16) -> bool {
+    TYPE::from(code) == TYPE::Unknown(code)
+}
+
 pub fn lib_type(n: u16) -> TYPE {
     match n {
         1 => TYPE::A,
@@ -204,7 +209,9 @@ pub fn lib_type(n: u16) -> TYPE {
         108 => TYPE::EUI48,
         109 => TYPE::EUI64,
         257 => TYPE::CAA,
-        x => TYPE::Unknown(x),
+        // not in this harness' table: whatever the library maps the code to (Unknown(x), or a
+        // mnemonic it has grown; C18 checks that the mapping round-trips for every code)
+        x => TYPE::from(x),
     }
 }
 
